@@ -23,6 +23,7 @@ import (
 	"os"
 	"sort"
 	"strings"
+	"sync"
 	"time"
 
 	"github.com/go-jose/go-jose/v4"
@@ -181,15 +182,22 @@ func runRemote(w *vf.Writer, nrand int) {
 	})
 	authz, _ := json.Marshal(map[string]any{"allowed": true, "reason": map[string]any{"rule": "r1", "ids": []int{1, 2}}})
 
-	var cur struct {
-		body   []byte
-		status int
-	}
+	var (
+		curMu sync.Mutex
+		cur   struct {
+			body   []byte
+			status int
+		}
+	)
 
 	srv := httptest.NewServer(http.HandlerFunc(func(rw http.ResponseWriter, _ *http.Request) {
+		curMu.Lock()
+		body, status := cur.body, cur.status
+		curMu.Unlock()
+
 		rw.Header().Set("Content-Type", "application/json")
-		rw.WriteHeader(cur.status)
-		rw.Write(cur.body) //nolint:errcheck
+		rw.WriteHeader(status)
+		rw.Write(body) //nolint:errcheck
 	}))
 	defer srv.Close()
 
@@ -199,6 +207,15 @@ func runRemote(w *vf.Writer, nrand int) {
 		"jwks_endpoint": map[string]any{"url": srv.URL + "/jwks"},
 		"assertions":    map[string]any{"issuers": []any{"iss"}},
 		"cache_ttl":     "0s", "validate_jwk": false,
+	})
+	if err != nil {
+		panic(err)
+	}
+
+	jwtAuth2, err := authenticators.CreatePrototype(cc, "jwt2", "jwt", map[string]any{
+		"jwks_endpoint": map[string]any{"url": srv.URL + "/jwks"},
+		"assertions":    map[string]any{"issuers": []any{"iss"}},
+		"cache_ttl":     "10s", // the key cache is on; the stub context has no cache, so it is the no-op cache path
 	})
 	if err != nil {
 		panic(err)
@@ -222,11 +239,11 @@ func runRemote(w *vf.Writer, nrand int) {
 		panic(err)
 	}
 
-	docs := map[string][]byte{"jwt": jwks, "introspection": introspection, "authorizer": authz}
+	docs := map[string][]byte{"jwt": jwks, "jwt2": jwks, "introspection": introspection, "authorizer": authz}
 
 	var cases []remoteCase
 
-	for _, m := range []string{"jwt", "introspection", "authorizer"} {
+	for _, m := range []string{"jwt", "jwt2", "introspection", "authorizer"} {
 		cases = append(cases, remoteCase{Mech: m, What: "full", Status: 200})
 
 		for _, st := range []int{204, 401, 404, 500} {
@@ -334,6 +351,7 @@ func runRemote(w *vf.Writer, nrand int) {
 			// replacements after which the document certainly does not say what is needed for success
 			must := map[string][]string{
 				"jwt":           {"[]", "[keys]", "[keys 0]", "[keys 0 crv]", "[keys 0 kty]", "[keys 0 x]", "[keys 0 y]"},
+				"jwt2":          {"[]", "[keys]", "[keys 0]", "[keys 0 crv]", "[keys 0 kty]", "[keys 0 x]", "[keys 0 y]"},
 				"introspection": {"[]", "[active]", "[iss]"},
 				"authorizer":    {"[]", "[allowed]"},
 			}[c.Mech]
@@ -349,7 +367,9 @@ func runRemote(w *vf.Writer, nrand int) {
 			c.Token = tok
 		}
 
+		curMu.Lock()
 		cur.body, cur.status = doc, c.Status
+		curMu.Unlock()
 
 		var execErr error
 
@@ -359,6 +379,8 @@ func runRemote(w *vf.Writer, nrand int) {
 			switch c.Mech {
 			case "jwt":
 				_, execErr = jwtAuth.Execute(ctx)
+			case "jwt2":
+				_, execErr = jwtAuth2.Execute(ctx)
 			case "introspection":
 				_, execErr = introAuth.Execute(ctx)
 			default:
